@@ -33,6 +33,12 @@ def Covered (nodes : Table) : Prop :=
   ∀ j, j < nodes.size → j = nodes.size - 1 ∨
     (∃ i, NUM_SYMBOLS ≤ i ∧ i < nodes.size ∧ ((node nodes i).1 = j ∨ (node nodes i).2 = j))
 
+/-- no node is the child of two different inner nodes -/
+def UniqueParent (nodes : Table) : Prop :=
+  ∀ i i' j, NUM_SYMBOLS ≤ i → i < nodes.size → NUM_SYMBOLS ≤ i' → i' < nodes.size →
+    ((node nodes i).1 = j ∨ (node nodes i).2 = j) →
+    ((node nodes i').1 = j ∨ (node nodes i').2 = j) → i = i'
+
 /-- the inner-node condition of `WellFormed` for all nodes created so far -/
 def InnerBelow (nodes : Table) : Prop :=
   ∀ i, NUM_SYMBOLS ≤ i → i < nodes.size →
@@ -47,11 +53,14 @@ structure BInv (fs : List Freq) (nodes : Table) : Prop where
   nonempty : 1 ≤ fs.length
   covered : ∀ j, j < nodes.size → (∃ x ∈ fs, x.nodeIdx = j) ∨
     (∃ i, NUM_SYMBOLS ≤ i ∧ i < nodes.size ∧ ((node nodes i).1 = j ∨ (node nodes i).2 = j))
+  rootsFree : ∀ x ∈ fs, ∀ i, NUM_SYMBOLS ≤ i → i < nodes.size →
+    (node nodes i).1 ≠ x.nodeIdx ∧ (node nodes i).2 ≠ x.nodeIdx
+  uniq : UniqueParent nodes
 
 theorem buildTree_inv (fuel : Nat) :
     ∀ (fs : List Freq) (nodes : Table), BInv fs nodes → fs.length ≤ fuel + 1 →
       (buildTree fuel fs nodes).size = 513 ∧ InnerBelow (buildTree fuel fs nodes)
-        ∧ Covered (buildTree fuel fs nodes) := by
+        ∧ Covered (buildTree fuel fs nodes) ∧ UniqueParent (buildTree fuel fs nodes) := by
   have hcov : ∀ (fs : List Freq) (nodes : Table), BInv fs nodes → fs.length ≤ 1 → Covered nodes := by
     intro fs nodes h hl j hj
     have hc := h.count; have hn := h.nonempty
@@ -75,13 +84,13 @@ theorem buildTree_inv (fuel : Nat) :
     intro fs nodes h hf
     have := h.count; have := h.nonempty
     simp only [buildTree]
-    exact ⟨by omega, h.inner, hcov fs nodes h (by omega)⟩
+    exact ⟨by omega, h.inner, hcov fs nodes h (by omega), h.uniq⟩
   | succ f ih =>
     intro fs nodes h hf
     by_cases hlen : fs.length ≤ 1
     · have := h.count; have := h.nonempty
       rw [buildTree]; simp only [hlen, if_true]
-      exact ⟨by omega, h.inner, hcov fs nodes h hlen⟩
+      exact ⟨by omega, h.inner, hcov fs nodes h hlen, h.uniq⟩
     · have hperm := sortDesc_perm fs
       have hslen : (sortDesc fs).reverse.length = fs.length := by
         rw [List.length_reverse, hperm.length_eq]
@@ -159,6 +168,44 @@ theorem buildTree_inv (fuel : Nat) :
               have : i ≠ nodes.size := by omega
               simp only [this, if_false]
               exact i3
+        · -- the roots are nobody's child
+          intro x hx i hi1 hi2
+          simp only [Array.size_push] at hi2
+          simp only [List.mem_append, List.mem_reverse, List.mem_singleton] at hx
+          rw [node_push]
+          by_cases hi : i = nodes.size
+          · simp only [hi, if_true]
+            rcases hx with hx | rfl
+            · exact ⟨fun e => hf1r ⟨x, hx, e.symm⟩, fun e => hf2r ⟨x, hx, e.symm⟩⟩
+            · exact ⟨by simp only; omega, by simp only; omega⟩
+          · simp only [hi, if_false]
+            rcases hx with hx | rfl
+            · exact h.rootsFree x ((hperm2.mem_iff).mp (by simp [hx])) i hi1 (by omega)
+            · have := h.inner i hi1 (by omega)
+              exact ⟨by simp only; omega, by simp only; omega⟩
+        · -- at most one parent
+          intro i i' j hi1 hi2 hi1' hi2' hj hj'
+          simp only [Array.size_push] at hi2 hi2'
+          rw [node_push] at hj hj'
+          have hf1fs : f1 ∈ fs := (hperm2.mem_iff).mp (by simp)
+          have hf2fs : f2 ∈ fs := (hperm2.mem_iff).mp (by simp)
+          by_cases hi : i = nodes.size
+          · by_cases hi' : i' = nodes.size
+            · omega
+            · simp only [hi, if_true] at hj
+              simp only [hi', if_false] at hj'
+              have r1 := h.rootsFree f1 hf1fs i' hi1' (by omega)
+              have r2 := h.rootsFree f2 hf2fs i' hi1' (by omega)
+              rcases hj with e | e <;> rcases hj' with e' | e' <;> omega
+          · by_cases hi' : i' = nodes.size
+            · simp only [hi, if_false] at hj
+              simp only [hi', if_true] at hj'
+              have r1 := h.rootsFree f1 hf1fs i hi1 (by omega)
+              have r2 := h.rootsFree f2 hf2fs i hi1 (by omega)
+              rcases hj with e | e <;> rcases hj' with e' | e' <;> omega
+            · simp only [hi, if_false] at hj
+              simp only [hi', if_false] at hj'
+              exact h.uniq i i' j hi1 (by omega) hi1' (by omega) hj hj'
       · simp only [List.length_append, List.length_reverse, List.length_singleton]
         simp only [List.length_cons] at hl2
         omega
@@ -236,58 +283,80 @@ theorem dfs_inner (fuel : Nat) :
           · cases h
           · exact hassign _ _ _ h
 
-/-- every table `from_frequencies` returns has 513 entries and well-formed inner nodes -/
-theorem fromFrequencies_inner (f : List Nat) (t : Table) (h : fromFrequencies f = .ok t) :
-    t.size = NUM_NODES ∧ ChildLt t := by
+/-- the table after the merge loop -/
+theorem forest_of_idx (fs0 : List Freq) (hidx : fs0.map (·.nodeIdx) = List.range' 0 256) :
+    (buildTree (fs0 ++ [(⟨1, EOF⟩ : Freq)]).length (fs0 ++ [⟨1, EOF⟩])
+        (Array.replicate NUM_SYMBOLS (65535, 65535))).size = 513
+      ∧ InnerBelow (buildTree (fs0 ++ [(⟨1, EOF⟩ : Freq)]).length (fs0 ++ [⟨1, EOF⟩])
+        (Array.replicate NUM_SYMBOLS (65535, 65535)))
+      ∧ Covered (buildTree (fs0 ++ [(⟨1, EOF⟩ : Freq)]).length (fs0 ++ [⟨1, EOF⟩])
+        (Array.replicate NUM_SYMBOLS (65535, 65535)))
+      ∧ UniqueParent (buildTree (fs0 ++ [(⟨1, EOF⟩ : Freq)]).length (fs0 ++ [⟨1, EOF⟩])
+        (Array.replicate NUM_SYMBOLS (65535, 65535))) := by
+  have hlen0 : fs0.length = 256 := by
+    have := congrArg List.length hidx
+    simpa using this
+  have hinit : BInv (fs0 ++ [(⟨1, EOF⟩ : Freq)]) (Array.replicate NUM_SYMBOLS (65535, 65535)) := by
+    constructor
+    · simp [NUM_SYMBOLS]
+    · intro x hx
+      simp only [List.mem_append, List.mem_singleton] at hx
+      simp only [Array.size_replicate, NUM_SYMBOLS]
+      rcases hx with hx | rfl
+      · have : x.nodeIdx ∈ List.range' 0 256 := by
+          rw [← hidx]; exact List.mem_map_of_mem hx
+        simp only [List.mem_range'_1] at this
+        omega
+      · decide
+    · rw [List.map_append, hidx, List.nodup_append]
+      refine ⟨List.nodup_range' 1, by simp, ?_⟩
+      intro a ha b hb
+      simp only [List.mem_range'_1] at ha
+      simp only [List.map_cons, List.map_nil, List.mem_singleton, EOF] at hb
+      omega
+    · intro i hi1 hi2
+      simp only [Array.size_replicate] at hi2
+      omega
+    · simp [hlen0, NUM_SYMBOLS]
+    · simp
+    · intro j hj
+      simp only [Array.size_replicate, NUM_SYMBOLS] at hj
+      left
+      by_cases hj6 : j = 256
+      · exact ⟨⟨1, EOF⟩, by simp, by simp [EOF, hj6]⟩
+      · have : j ∈ List.range' 0 256 := by simp only [List.mem_range'_1]; omega
+        rw [← hidx] at this
+        simp only [List.mem_map] at this
+        obtain ⟨x, hx, e⟩ := this
+        exact ⟨x, by simp only [List.mem_append]; left; exact hx, e⟩
+    · intro x _ i hi1 hi2
+      simp only [Array.size_replicate] at hi2
+      omega
+    · intro i i' j hi1 hi2
+      simp only [Array.size_replicate] at hi2
+      omega
+  exact buildTree_inv _ _ _ hinit (Nat.le_succ _)
+
+/-- unfolding of `fromFrequencies`: the forest `T` and the traversal on it -/
+theorem fromFrequencies_ok (f : List Nat) (t : Table) (h : fromFrequencies f = .ok t) :
+    ∃ T : Table, T.size = 513 ∧ InnerBelow T ∧ Covered T ∧ dfs T 4096 [] 0 true = .ok t
+      ∧ t.size = NUM_NODES ∧ UniqueParent T := by
   simp only [fromFrequencies] at h
   split at h
   · cases h
   · next hlen =>
     have hlen' : f.length = 256 := by omega
-    -- the initial forest
-    have hinit : BInv ((f.zipIdx.map fun ((x, i) : Nat × Nat) => (⟨x, i⟩ : Freq)) ++ [⟨1, EOF⟩])
-        (Array.replicate NUM_SYMBOLS (65535, 65535)) := by
-      have hidx : (f.zipIdx.map fun ((x, i) : Nat × Nat) => (⟨x, i⟩ : Freq)).map (·.nodeIdx)
-          = List.range' 0 256 := by
-        rw [List.map_map, ← hlen', ← List.zipIdx_map_snd 0 f]
-        rfl
-      constructor
-      · simp [NUM_SYMBOLS]
-      · intro x hx
-        simp only [List.mem_append, List.mem_singleton] at hx
-        simp only [Array.size_replicate, NUM_SYMBOLS]
-        rcases hx with hx | rfl
-        · have : x.nodeIdx ∈ List.range' 0 256 := by
-            rw [← hidx]; exact List.mem_map_of_mem hx
-          simp only [List.mem_range'_1] at this
-          omega
-        · decide
-      · rw [List.map_append, hidx, List.nodup_append]
-        refine ⟨List.nodup_range' 1, by simp, ?_⟩
-        intro a ha b hb
-        simp only [List.mem_range'_1] at ha
-        simp only [List.map_cons, List.map_nil, List.mem_singleton, EOF] at hb
-        omega
-      · intro i hi1 hi2
-        simp only [Array.size_replicate] at hi2
-        omega
-      · simp [hlen', NUM_SYMBOLS]
-      · simp
-      · intro j hj
-        simp only [Array.size_replicate, NUM_SYMBOLS] at hj
-        left
-        by_cases hj6 : j = 256
-        · exact ⟨⟨1, EOF⟩, by simp, by simp [EOF, hj6]⟩
-        · have : j ∈ List.range' 0 256 := by simp only [List.mem_range'_1]; omega
-          rw [← hidx] at this
-          simp only [List.mem_map] at this
-          obtain ⟨x, hx, e⟩ := this
-          exact ⟨x, by simp only [List.mem_append]; left; exact List.mem_map.mpr hx, e⟩
-    have hb := buildTree_inv _ _ _ hinit (Nat.le_succ _)
+    revert h
+    generalize hfs0 : List.map _ f.zipIdx = fs0
+    intro h
+    have hidx : fs0.map (·.nodeIdx) = List.range' 0 256 := by
+      rw [← hfs0, List.map_map, ← hlen', ← List.zipIdx_map_snd 0 f]
+      rfl
+    have hb := forest_of_idx fs0 hidx
     revert h
     generalize buildTree _ _ (Array.replicate NUM_SYMBOLS (65535, 65535)) = T at hb
     intro h
-    obtain ⟨hT1, hT2, _hT3⟩ := hb
+    refine ⟨T, hb.1, hb.2.1, hb.2.2.1, ?_⟩
     cases hd : dfs T 4096 [] 0 true with
     | panic s => rw [hd] at h; cases h
     | diverge => rw [hd] at h; cases h
@@ -295,16 +364,51 @@ theorem fromFrequencies_inner (f : List Nat) (t : Table) (h : fromFrequencies f 
       rw [hd] at h
       simp only at h
       split at h
-      · next hsz =>
-        cases h
-        obtain ⟨d1, d2⟩ := dfs_inner _ _ _ _ _ _ hd
-        refine ⟨hsz, ?_⟩
-        intro i hi1 hi2 b
-        have := hT2 i hi1 (by rw [hT1]; exact hi2)
-        rw [← d2 i hi1] at this
-        cases b
-        · simp only [child, childF]; exact this.1
-        · simp only [child, childF]; exact this.2.1
+      · next hsz => cases h; exact ⟨rfl, hsz, hb.2.2.2⟩
       · cases h
+
+/-- the forest `from_frequencies` builds before it assigns the codes -/
+def rustForest (f : List Nat) : Table :=
+  buildTree ((f.zipIdx.map fun (p : Nat × Nat) => (⟨p.1, p.2⟩ : Freq)) ++ [(⟨1, EOF⟩ : Freq)]).length
+    ((f.zipIdx.map fun (p : Nat × Nat) => (⟨p.1, p.2⟩ : Freq)) ++ [(⟨1, EOF⟩ : Freq)])
+    (Array.replicate NUM_SYMBOLS (65535, 65535))
+
+theorem fromFrequencies_ok_forest (f : List Nat) (t : Table) (h : fromFrequencies f = .ok t) :
+    f.length = 256 ∧ dfs (rustForest f) 4096 [] 0 true = .ok t := by
+  simp only [fromFrequencies] at h
+  split at h
+  · cases h
+  · next hlen =>
+    refine ⟨by omega, ?_⟩
+    revert h
+    generalize hfs0 : List.map _ f.zipIdx = fs0
+    have hfs : fs0 = f.zipIdx.map fun (p : Nat × Nat) => (⟨p.1, p.2⟩ : Freq) := by
+      rw [← hfs0]
+    subst hfs
+    intro h
+    show dfs (rustForest f) 4096 [] 0 true = .ok t
+    unfold rustForest
+    cases hd : dfs _ 4096 [] 0 true with
+    | panic s => rw [hd] at h; cases h
+    | diverge => rw [hd] at h; cases h
+    | ok t' =>
+      rw [hd] at h
+      simp only at h
+      split at h
+      · cases h; rfl
+      · cases h
+
+/-- every table `from_frequencies` returns has 513 entries and well-formed inner nodes -/
+theorem fromFrequencies_inner (f : List Nat) (t : Table) (h : fromFrequencies f = .ok t) :
+    t.size = NUM_NODES ∧ ChildLt t := by
+  obtain ⟨T, hT1, hT2, _, hd, hsz, _⟩ := fromFrequencies_ok f t h
+  obtain ⟨_, d2⟩ := dfs_inner _ _ _ _ _ _ hd
+  refine ⟨hsz, ?_⟩
+  intro i hi1 hi2 b
+  have := hT2 i hi1 (by rw [hT1]; exact hi2)
+  rw [← d2 i hi1] at this
+  cases b
+  · simp only [child, childF]; exact this.1
+  · simp only [child, childF]; exact this.2.1
 
 end Tw.Huffman
